@@ -27,8 +27,15 @@ fn oracle_fast(ids: &[i32], first: bool) -> Vec<bool> {
 }
 
 fn check(out: &mut CaseOut, ids: &[i32], class: &str) {
+	check_modes(out, ids, class, &[true, false]);
+}
+
+fn check_modes(out: &mut CaseOut, ids: &[i32], class: &str, modes: &[bool]) {
 	let f = frame_of(ids);
 	for (name, keep, first) in [("ExceptFirst", Rollbacks::ExceptFirst, true), ("ExceptLast", Rollbacks::ExceptLast, false)] {
+		if !modes.contains(&first) {
+			continue;
+		}
 		out.evals += 1;
 		let want = if ids.len() <= 64 { oracle(ids, first) } else { oracle_fast(ids, first) };
 		let head: Vec<i32> = ids.iter().take(16).cloned().collect();
@@ -55,15 +62,54 @@ fn check(out: &mut CaseOut, ids: &[i32], class: &str) {
 	out.class(class.to_string());
 }
 
+/// Call history on one thread: the mask of a game must not depend on which games were looked at
+/// before. Three large games (dense ids with rollbacks; two overlapping runs; sparse high ids) are
+/// re-evaluated again and again with g-1 calls on tiny games in between, for EVERY g from 1 to
+/// 600 (thorough: 1300), so that the distance in calls between two evaluations of a large game
+/// takes every value in that range (a counter, stamp or pool inside the library that wraps or is
+/// recycled after k calls shows at distance k). Expected masks come from the definition.
+fn history_case(ctx: &Ctx) -> CaseOut {
+	let mut out = CaseOut::default();
+	let mut rng = Rng::derive(ctx.seed, 0xC15B);
+	let mut bigs: Vec<Vec<i32>> = vec![];
+	let mut a = vec![];
+	let mut id = -123i32;
+	while a.len() < 3000 {
+		a.push(id);
+		id = if rng.chance(1, 5) { (id - rng.range(0, 7) as i32).max(-123) } else { id + 1 };
+	}
+	bigs.push(a);
+	bigs.push((0..1500).chain(500..2000).collect());
+	bigs.push((0..800).map(|i| 1_000_000 + (i % 500) * 3).collect());
+	let gaps = ctx.tier.pick(600usize, 1300);
+	for g in 1..=gaps {
+		for j in 0..g - 1 {
+			let n = rng.range(0, 8);
+			let small: Vec<i32> = (0..n).map(|_| -123 + rng.below(6) as i32).collect();
+			check_modes(&mut out, &small, "history|small-games-between", &[(g + j) % 2 == 0]);
+		}
+		check(&mut out, &bigs[g % 3], "history|large-game-again");
+		if out.violations.len() >= 2 {
+			break;
+		}
+	}
+	for v in out.violations.iter_mut() {
+		v.sig = format!("{};after-other-games", v.sig);
+	}
+	out.count("calls_in_history_case", out.evals);
+	out.sample = Some(json!({"case": "history", "distances_covered": gaps, "calls": out.evals}));
+	out
+}
+
 impl Monitor for C15 {
 	fn id(&self) -> &'static str {
 		"C15"
 	}
 	fn rule(&self) -> String {
-		"Frame values are built directly from id vectors (public fields) and Frame::rollbacks is compared with the definition (row marked iff an earlier / later row has the same id; exactly one unmarked row per distinct id). Exhaustive: every sequence of length 0..=7 over the alphabet {-123,-122,-121,-120} (quick: length <= 6). Random: lengths up to 20000 with monotone/rollback/repeat/gap/shuffled patterns, ids from -123 to 2^24, games whose ids start at 70 000 .. 2^30 with rollbacks (sparse, high ids), and sequences of up to 300 rows touching the boundary ids i32::MAX-124..=i32::MAX. distinct = pattern classes x length classes.".into()
+		"Frame values are built directly from id vectors (public fields) and Frame::rollbacks is compared with the definition (row marked iff an earlier / later row has the same id; exactly one unmarked row per distinct id). Exhaustive: every sequence of length 0..=7 over the alphabet {-123,-122,-121,-120} (quick: length <= 6). Random: lengths up to 20000 with monotone/rollback/repeat/gap/shuffled patterns, ids from -123 to 2^24, games whose ids start at 70 000 .. 2^30 with rollbacks (sparse, high ids), and sequences of up to 300 rows touching the boundary ids i32::MAX-124..=i32::MAX. One history case re-evaluates three large games with g-1 calls on tiny games in between for every g in 1..600 (thorough 1300) on one thread: the mask must not depend on the calls made before. distinct = pattern classes x length classes.".into()
 	}
 	fn n_cases(&self, ctx: &Ctx) -> usize {
-		ctx.tier.pick(64 + 200, 256 + 4000)
+		ctx.tier.pick(64 + 200, 256 + 4000) + 1
 	}
 	fn min_classes(&self, _tier: Tier) -> usize {
 		8
@@ -97,6 +143,9 @@ impl Monitor for C15 {
 				out.sample = Some(json!({"case": idx, "kind": "exhaustive", "prefix": prefix, "sequences": out.evals / 2}));
 			}
 			return out;
+		}
+		if idx + 1 == self.n_cases(ctx) {
+			return history_case(ctx);
 		}
 		let mut rng = Rng::derive(ctx.seed, idx as u64);
 		let pattern = (idx - nex) % 8;
